@@ -237,20 +237,22 @@ impl StartsWithStr for [char] {
     #[verifier::external_body]
     fn starts_with_str(&self, needle: &str) -> (r: bool) { unimplemented!() }
 }
-/// R27: `<13 keywords>.into_iter().any(closure)` -> this loop (verified): true iff the closure
-/// - which decides the ghost predicate `p` - holds for one of them, tried in order
-pub fn vx_any13<'k, F: Fn(&'k str) -> bool>(arr: [&'k str; 13], f: F, Ghost(p): Ghost<spec_fn(&'k str) -> bool>) -> (r: bool)
+/// R27: `<N keywords>.into_iter().any(closure)` -> this loop (verified): true iff the closure
+/// - which decides the ghost predicate `p` - holds for one of them, tried in order.  (Generic in
+/// the array length so that a change of the list's length is decided - by the caller's hint, which
+/// wants the 13 copulas - instead of being rejected as a type error.)
+pub fn vx_any13<'k, const N: usize, F: Fn(&'k str) -> bool>(arr: [&'k str; N], f: F, Ghost(p): Ghost<spec_fn(&'k str) -> bool>) -> (r: bool)
     requires
         forall|x: &'k str| call_requires(f, (x,)),
         forall|x: &'k str, b: bool| call_ensures(f, (x,), b) ==> b == p(x),
-    ensures r == (exists|k: int| 0 <= k < 13 && p(#[trigger] arr@[k])),
+    ensures r == (exists|k: int| 0 <= k < N && p(#[trigger] arr@[k])),
 {
     let mut i: usize = 0;
-    while i < 13
-        invariant i <= 13, forall|x: &'k str| call_requires(f, (x,)),
+    while i < N
+        invariant i <= N, arr@.len() == N, forall|x: &'k str| call_requires(f, (x,)),
             forall|x: &'k str, b: bool| call_ensures(f, (x,), b) ==> b == p(x),
             forall|k: int| 0 <= k < i ==> !p(#[trigger] arr@[k]),
-        decreases 13 - i
+        decreases N - i
     {
         if f(arr[i]) { return true; }
         i = i + 1;
